@@ -155,7 +155,7 @@ theorem topLocals_declared (ss : List Stat) (env : Env) (n : Bytes) (l : Loc) (e
         exact ⟨declOcc fnm nl ⟨0, 0, 0, 0⟩ "N", by simp [bStats, bStat], by simp [declOcc],
           by simp [declOcc, h.2.1], by simp [declOcc, h.1]⟩
       · exact tail h
-    | brk | label _ _ | goto_ _ _ | do_ _ _ | while_ _ _ _ | repeat_ _ _ _ | if_ _ _ _ | fornum _ _ _ _ _ _ _
+    | brk | label _ _ | goto_ _ _ | do_ _ _ | while_ _ _ _ | repeat_ _ _ _ | if_ _ _ _ _ | fornum _ _ _ _ _ _ _
     | forin _ _ _ _ | assign _ _ _ | callstat _ =>
       simp only [topLocals] at h
       exact tail h
